@@ -458,8 +458,12 @@ func (e *kvElection) attemptPriorityTakeover(payloadBytes []byte) error {
 	}
 
 	if e.cfg.Priority <= currentPayload.Priority {
-		e.leaderID.Store(currentPayload.ID)
-		e.revision.Store(entry.Revision())
+		// Follower bookkeeping only: a leader's revision is the one its next
+		// refresh is checked against and must not be replaced by a read.
+		if !e.IsLeader() {
+			e.leaderID.Store(currentPayload.ID)
+			e.revision.Store(entry.Revision())
+		}
 		return fmt.Errorf("current leader has equal or higher priority: %d >= %d", currentPayload.Priority, e.cfg.Priority)
 	}
 
